@@ -78,6 +78,29 @@ def _values_for(value, rng, pool):
     return out
 
 
+_EVOLVABLE = {}
+
+
+def _evolve(obj, field, value):
+    """attr.evolve; for a class one of whose converters does not accept its own output (SignedCertificateTimestamp.log takes
+    the log id, holds the log) evolve fails whatever is changed: there the field is converted by its own converter, assigned to
+    a deep copy and the whole object validated - the object a caller gets who builds it field by field"""
+    import copy
+    cls = type(obj)
+    if cls not in _EVOLVABLE:
+        try:
+            attr.evolve(obj)
+            _EVOLVABLE[cls] = True
+        except Exception:  # pylint: disable=broad-except
+            _EVOLVABLE[cls] = False
+    if _EVOLVABLE[cls]:
+        return attr.evolve(obj, **{field.name.lstrip('_'): value})
+    fresh = copy.deepcopy(obj)
+    setattr(fresh, field.name, field.converter(value) if field.converter is not None else value)
+    attr.validate(fresh)
+    return fresh
+
+
 def variants(obj, rng, pool, per_field=8, others=(), depth=0):
     """yield (description, variant object)"""
     cls = type(obj)
@@ -136,7 +159,7 @@ def variants(obj, rng, pool, per_field=8, others=(), depth=0):
         twins = 0
         for label, v in cands:
             try:
-                fresh = attr.evolve(obj, **{f.name.lstrip('_'): v})
+                fresh = _evolve(obj, f, v)
                 yield ('%s%s' if label.startswith('.') else '%s=%s') % (f.name, label), fresh
             except Exception:  # pylint: disable=broad-except
                 continue
